@@ -846,6 +846,28 @@ fn text_ops(out: &mut Vec<Op>, t: &Tgt, units: &[Unit], k: usize, fam: Fam, leve
     let n = units.len();
     let c1 = tag_char(k).to_string();
     let c2: String = [tag_char2(k), tag_char(k)].iter().collect();
+    if fam == Fam::Rtx && level == 3 {
+        // formatting-focused alphabet: a four-unit text, then every range x three values of ONE key
+        // (set / another value / unset) - overlapping ranges of different non-null values - and appends
+        if n == 0 {
+            out.push(Op::TIns { t: t.clone(), i: 0, s: "wxyz".into() });
+            return;
+        }
+        let vals: [AttrsV; 3] = [bold(), [("b".to_string(), AnyV::s("x"))].into_iter().collect(), unbold()];
+        for i in 0..n {
+            for len in 1..=(n - i) {
+                if n > 4 && !(i == 0 || i + len == n || len <= 2) {
+                    continue;
+                }
+                for v in &vals {
+                    out.push(Op::TFmt { t: t.clone(), i, n: len, attrs: v.clone() });
+                }
+            }
+        }
+        out.push(Op::TIns { t: t.clone(), i: n, s: c1.clone() });
+        out.push(Op::TDel { t: t.clone(), i: n / 2, n: 1 });
+        return;
+    }
     match fam {
         Fam::Uni => {
             let chunks: &[&str] = if level == 0 {
